@@ -26,6 +26,7 @@ theorem removeAll_outside {t t1 : Tree} {d d0 : Path} (h : Mem.removeAll t d = .
     (hd : under d0 d = true) : outside d0 t1 = outside d0 t := by
   unfold Mem.removeAll at h
   split at h
+  · cases h; rfl
   · cases h
   · split at h
     · cases h
@@ -52,19 +53,17 @@ theorem openFile_outside {t t1 : Tree} {d d0 : Path} {f : Mem.Flags} {info : Mem
     · split at h
       · cases h
       · cases h; rfl
-    · split at h
+    · dsimp only at h
+      split at h
       · cases h
-      · dsimp only at h
-        split at h
-        · cases h
+      · split at h
         · split at h
-          · split at h
-            · cases h; rw [outside_append, outside_singleton_under hd]; simp
-            · cases h
+          · cases h; rw [outside_append, outside_singleton_under hd]; simp
+          · cases h
+        · cases h; rfl
+        · split at h
+          · cases h; exact outside_setEntry hd _ _
           · cases h; rfl
-          · split at h
-            · cases h; exact outside_setEntry hd _ _
-            · cases h; rfl
 
 theorem copyPre_outside {t t1 : Tree} {d d0 : Path} {ow c : Bool} (h : copyPre t d ow = .ok (t1, c))
     (hd : under d0 d = true) : outside d0 t1 = outside d0 t := by
@@ -263,6 +262,7 @@ theorem movePre_sub {t t1 : Tree} {S D : Path} {ow c : Bool} (h : movePre t D ow
         cases h
         unfold Mem.removeAll at hr
         split at hr
+        · cases hr; rfl
         · cases hr
         · split at hr
           · cases hr
